@@ -241,6 +241,25 @@ func (r *reinitRun) scenario(outDir string, n, t int, interleave, junk, adapt bo
 			}
 		}
 	}
+	// verification is on again after the re-initialisation (the replay switches it off for the unsigned 0.1.4 patches only)
+	for i, nd := range b.nodes {
+		if g, ok := nd.svc.(interface{ GetSkipCommKeysVerification() bool }); ok && g.GetSkipCommKeysVerification() {
+			r.mon(fmt.Sprintf("C09 verification_on: %s node %d: signature verification is still switched off after the re-initialisation", tag, i))
+		}
+		before := nodeRender(nd)
+		forged, _ := json.Marshal(map[string]interface{}{"ParticipantId": (i + 1) % n, "Error": map[string]string{"ErrorMsg": "forged"}, "CreatedAt": "2023-01-01T00:00:00Z"})
+		for k, fm := range []storage.Message{
+			{ID: "f1", DkgRoundID: round, Event: "event_signing_partial_sign_error_received", Data: forged, Signature: bytes.Repeat([]byte{9}, 64), SenderAddr: b.nodes[(i+1)%n].name},
+			{ID: "f2", DkgRoundID: round, Event: "event_signing_partial_sign_error_received", Data: forged, SenderAddr: b.nodes[(i+1)%n].name},
+			{ID: "f3", DkgRoundID: round, Event: "event_signing_start", Data: []byte(`{"BatchID":"x","ParticipantId":0,"SigningTasks":[{"MessageID":"m","File":"f","Payload":"AA=="}],"CreatedAt":"2023-01-01T00:00:00Z"}`), Signature: bytes.Repeat([]byte{1}, 64), SenderAddr: b.nodes[0].name},
+		} {
+			err := nd.svc.ProcessMessage(fm)
+			if err == nil || nodeRender(nd) != before {
+				r.mon(fmt.Sprintf("C09 unsigned_noop: %s node %d accepts forged message #%d (%s, bad or missing signature) after the re-initialisation", tag, i, k+1, fm.Event))
+				break
+			}
+		}
+	}
 	// signatures made afterwards verify under the ORIGINAL group key
 	msg := []byte("signed after the reinitialisation")
 	if err := b.proposeData(b.nodes[n-1], round, map[string][]byte{"after": msg}); err != nil {
